@@ -186,6 +186,18 @@ CHECKS = {
         "Trusted: the monitors; export normal form (node set, edge multiset; list order and synthetic edge ids are presentation). Known findings matched exactly from pins/C18.json.",
         "DESIGN.md section 5 C18",
     ),
+    "C07": (
+        "vmc/c07.py (E1 with rewrite sites as choice points over corpus + generator seeds)",
+        "exploration",
+        "exhaustive enumeration of single-site token-level rewrites (and per-kind all-sites, thorough: site pairs) of corpus and generator seeds; differential oracle",
+        "For every seed (corpus single statements, TPC-DS queries, generator cases around 4 centres) and every rewrite kind (whitespace -> newline+tab, blank inserted, "
+        "block comment, line comment - both containing ';' -, keyword upper-cased, identifier upper-cased, lower-case identifier quoted, ';;' appended) every eligible site "
+        "is rewritten singly and all sites of a kind at once (thorough: all pairs of sites for the 50 shortest seeds); tables and named-column pairs must equal the "
+        "original's. Eligibility is decided by sqlfluff (parses without violation, same significant token sequence).",
+        "Trusted: sqlfluff's lexer / parser as the judge of eligibility; placeholder for display names of un-aliased expression columns. Known findings matched "
+        "exactly from pins/C07.json.",
+        "DESIGN.md section 5 C07",
+    ),
 }
 
 NOT_YET = "check not built yet in this revision (planned in DESIGN.md section 5/11); not claimed"
